@@ -14,6 +14,12 @@ use crate::{
     sim_b::{ev_tag, simplify_b},
     world::*,
 };
+use barter::{
+    execution::{AccountStreamEvent, builder::ExecutionBuildFutures},
+    system::builder::{AuditMode, EngineFeedMode, SystemBuild},
+};
+use barter_data::streams::consumer::MarketStreamEvent;
+use barter_instrument::instrument::InstrumentIndex;
 use barter::engine::{
     EngineOutput,
     audit::{AuditTick, Auditor, EngineAudit, context::EngineContext, state_replica::StateReplicaManager},
@@ -167,7 +173,7 @@ fn without_orders(state: &St) -> St {
     s
 }
 
-fn diff_states(engine: &St, replica: &St) -> Option<String> {
+pub fn diff_states(engine: &St, replica: &St) -> Option<String> {
     if engine.trading != replica.trading {
         return Some(format!("trading state: engine {:?} replica {:?}", engine.trading, replica.trading));
     }
@@ -439,6 +445,93 @@ impl Sim for SimF {
                 fail!('run, "A1_async_runner_state", ticks1.len() - 1, "engine state after async_run_with_audit differs from step-by-step processing");
             }
 
+            // ================= (iv) the real System: SystemBuild::init, stream mode, audit on ======
+            // Events go in through System::feed_tx one at a time (the script is armed right before
+            // each send, the tick is awaited on the audit channel the System hands out).
+            if sc.audit_rx_drop_at.is_none() {
+                let (w4, e4) = WorldB::build(&sc.base);
+                let rt4 = tokio::runtime::Builder::new_current_thread()
+                    .enable_time()
+                    .start_paused(true)
+                    .rng_seed(tokio::runtime::RngSeed::from_bytes(&sc.tokio_seed.to_le_bytes()))
+                    .build()
+                    .expect("runtime");
+                #[allow(clippy::type_complexity)]
+                let r4: Result<(AuditTick<St, EngineContext>, Vec<Tick>, St, Option<Tick>), String> = rt4.block_on(async {
+                    let build = SystemBuild::<SimEngine, Ev, _>::new(
+                        e4,
+                        EngineFeedMode::Stream,
+                        AuditMode::Enabled,
+                        futures::stream::pending::<MarketStreamEvent<InstrumentIndex, barter_data::event::DataKind>>(),
+                        barter_integration::channel::Channel::<AccountStreamEvent>::new(),
+                        ExecutionBuildFutures {
+                            mock_exchange_run_futures: vec![],
+                            execution_init_futures: vec![],
+                        },
+                    );
+                    let mut system = build.init().await.map_err(|e| format!("SystemBuild::init failed: {e}"))?;
+                    let audit = system.take_audit().ok_or("System built with AuditMode::Enabled has no audit stream")?;
+                    let snapshot4 = audit.snapshot;
+                    let mut updates = audit.updates;
+                    let mut feed4 = Feed::new(&w4, &sc.base);
+                    let mut ticks4: Vec<Tick> = Vec::new();
+                    let mut ended = false;
+                    while let Some(ev) = feed4.next() {
+                        if barter_integration::channel::Tx::send(&system.feed_tx, ev).is_err() {
+                            return Err("engine dropped its feed receiver before the feed ended".to_string());
+                        }
+                        let tick = tokio::time::timeout(std::time::Duration::from_secs(3600), updates.rx.recv())
+                            .await
+                            .map_err(|_| format!("no audit tick for event {} within 1 h of virtual time", ticks4.len()))?
+                            .ok_or("audit channel closed before the terminal tick")?;
+                        let term = tick.event.is_terminal();
+                        ticks4.push(tick);
+                        if term {
+                            ended = true;
+                            break;
+                        }
+                    }
+                    if ended {
+                        let (engine, _last) = system.engine.await.map_err(|e| format!("engine task failed: {e}"))?;
+                        Ok((snapshot4, ticks4, engine.state, None))
+                    } else {
+                        // feed exhausted without a terminal event: the System shuts the engine down
+                        let (engine, _last) = system.shutdown().await.map_err(|e| format!("System::shutdown failed: {e}"))?;
+                        let extra = tokio::time::timeout(std::time::Duration::from_secs(3600), updates.rx.recv()).await.ok().flatten();
+                        Ok((snapshot4, ticks4, engine.state, extra))
+                    }
+                });
+                drop(rt4);
+                match r4 {
+                    Err(e) => {
+                        fail!('run, "A1_system_runner", 0, "{e}");
+                    }
+                    Ok((snapshot4, ticks4, state4, extra)) => {
+                        stats.probe("run_through_real_system_builder");
+                        if snapshot4 != snapshot1 {
+                            fail!('run, "A1_snapshot", 0, "System: the audit snapshot handed out by SystemBuild::init differs from the engine's initial state / sequence");
+                        }
+                        // the reference ends with a FeedEnded tick when no terminal event was fed
+                        let n_cmp = if terminated { ticks1.len() } else { ticks1.len() - 1 };
+                        if ticks4.len() != n_cmp || ticks4[..] != ticks1[..n_cmp] {
+                            let first_bad = ticks4.iter().zip(ticks1.iter()).position(|(a, b)| a != b);
+                            fail!('run, "A1_system_runner", first_bad.unwrap_or(ticks4.len().min(n_cmp)), "System (stream mode, audit enabled) emitted {} ticks, reference has {n_cmp}; first differing tick {:?}", ticks4.len(), first_bad);
+                        }
+                        if !terminated {
+                            match &extra {
+                                Some(t) if t.event.is_terminal() && t.context.sequence.value() == seq0 + 1 + n_cmp as u64 => {}
+                                other => {
+                                    fail!('run, "A1_terminal_tick", n_cmp, "System::shutdown: final audit record is {:?}, expected a terminal shutdown record with sequence {}", other.as_ref().map(|t| (t.context.sequence.value(), t.event.is_terminal())), seq0 + 1 + n_cmp as u64);
+                                }
+                            }
+                        }
+                        if state4 != e1.state {
+                            fail!('run, "A1_system_runner", n_cmp, "engine state returned by the System differs from step-by-step processing");
+                        }
+                    }
+                }
+            }
+
             // ================= replica behind the audit network ================================
             // delivery order after network faults
             let mut delivery: Vec<usize> = (0..ticks1.len()).collect();
@@ -590,6 +683,7 @@ impl Sim for SimF {
             "barter::engine::{Engine::process, process_with_audit}",
             "barter::engine::audit::{Auditor impl, AuditTick, EngineAudit, ProcessAudit}",
             "barter::engine::run::{sync_run_with_audit, async_run_with_audit}",
+            "barter::system::builder::SystemBuild::{new, init} (stream mode, audit enabled), barter::system::System::{feed_tx, take_audit, shutdown}",
             "barter::engine::audit::state_replica::StateReplicaManager::{new, run, update_from_event}",
             "barter_integration::channel::ChannelTxDroppable",
             "barter::engine::state::EngineState (engine and replica)",
@@ -618,6 +712,7 @@ impl Sim for SimF {
             "terminal_shutdown_tick",
             "old_tick_skipped",
             "gap_rejected",
+            "run_through_real_system_builder",
         ]
     }
     fn assumptions(&self) -> Vec<String> {
